@@ -235,6 +235,14 @@ def encode_case(c, rng):
     """rewrite the signature of every function into an equivalent encoding"""
     c2 = copy.deepcopy(c)
     c2["id"] += "~enc"
+
+    def toggle_markers(xs):
+        # where the dig.In / dig.Out marker is embedded (first or after the fields) is an encoding detail
+        for x in xs:
+            if x.get("k") == "obj":
+                if rng.random() < 0.4:
+                    x["marker_last"] = not x.get("marker_last", False)
+                toggle_markers(x.get("fields") or [])
     for f in c2["fns"]:
         ps = f.get("params") or []
         # wrap a run of top-level parameters into one new parameter object
@@ -258,6 +266,9 @@ def encode_case(c, rng):
         elif rs and rng.random() < 0.4 and not any(r["k"] != "obj" and (r.get("name") or r.get("group") or r.get("as")) for r in rs):
             # nest result objects / plain results one level deeper
             f["results"] = [dict(k="obj", fields=rs)]
+    for f in c2["fns"]:
+        toggle_markers(f.get("params") or [])
+        toggle_markers(f.get("results") or [])
     return c2
 
 
